@@ -2,7 +2,7 @@
    spike-subset arrays o_subset, the uuid generator o_uuids under its count/distinctness hypothesis) and every
    correctly-rounded-operation / matrix-inverse oracle of the loader model PV.C04.Model.load. *)
 From Coq Require Import ZArith List Bool String Ascii.
-From PV Require Import Base.Tok Base.TokArith C04.Model C13.Model C13.Spec C13.Proofs1.
+From PV Require Import Base.Tok Base.TokArith C04.Model C13.Model C13.Spec C13.Proofs1 C13.Proofs2 C13.Proofs3.
 Import ListNotations.
 Open Scope string_scope.
 Open Scope list_scope.
@@ -63,6 +63,93 @@ Theorem C13_frame : forall o ci r, convert o ci = COk r ->
 Proof. exact frame_thm. Qed.
 Print Assumptions C13_frame.
 
+(* Units: the output holds exactly one spikes.samples file = the source's sample numbers (spike_times.npy squeezed)
+   and exactly one spikes.times file, float64, with times[i] = samples[i] / sample_rate (seconds) *)
+Theorem C13_units : forall fdiv fmul fround inv o ci r rate ncd kv,
+  load fdiv fmul fround inv (ci_src ci) rate ncd = Ok (ci_m ci) ->
+  find_path P_times_ks (ci_src ci) = Some kv ->
+  convert o ci = COk r ->
+  exists s t,
+    (forall a, In (relabel (ci_label ci) "spikes.samples.npy", a) (co_npy r) <-> a = s) /\
+    (forall a, In (relabel (ci_label ci) "spikes.times.npy", a) (co_npy r) <-> a = t) /\
+    s = read_full (snd kv) /\ a_dt t = DF64 /\ a_shape t = a_shape s /\
+    Forall2 (fun x y => fdiv x rate = Some y) (a_data s) (a_data t).
+Proof. exact units_thm. Qed.
+Print Assumptions C13_units.
+
+(* Label, files: the output arrays are exactly the re-labelled images of the files convert() made or copied
+   (whose un-labelled names all belong to a fixed table), and likewise for the non-array files *)
+Theorem C13_label_files : forall o ci r, convert o ci = COk r ->
+  (forall n a, In (n, a) (co_npy r) -> exists n0 a0, In (n0, a0) (out0_npy o ci) /\ n = relabel (ci_label ci) n0) /\
+  (forall n0 a0, In (n0, a0) (out0_npy o ci) -> exists a, In (relabel (ci_label ci) n0, a) (co_npy r)) /\
+  co_txt r = map (fun kv => (relabel (ci_label ci) (fst kv), snd kv)) (out0_txt o ci) /\
+  (forall n0 a0, In (n0, a0) (out0_npy o ci) -> In n0 all_out_names).
+Proof. exact label_thm. Qed.
+Print Assumptions C13_label_files.
+
+(* Label, names: for every name convert() can produce, re-labelling is the identity when the label is empty or the
+   name is not a spikes./clusters./templates./channels. name, and otherwise inserts ".<label>" before the
+   extension (the part after the last dot) *)
+Theorem C13_label_names : forall L n0, In n0 (all_out_names ++ TXT_NAMES) ->
+  (L = "" \/ labelled n0 = false -> relabel L n0 = n0) /\
+  (L <> "" -> labelled n0 = true -> Label_Spec L n0 (relabel L n0)).
+Proof. exact relabel_spec. Qed.
+Print Assumptions C13_label_names.
+
+(* the general rule behind it (any name with an extension, any label) *)
+Theorem C13_with_label : forall L n st e,
+  n = append st (String "."%char e) -> has_dot e = false -> e <> "" -> st <> "" ->
+  with_label L n = append st (append "." (append L (String "."%char e))).
+Proof. exact with_label_spec. Qed.
+Print Assumptions C13_with_label.
+
+(* distinct names: no two output arrays share a name, so a re-labelled name identifies its file *)
+Theorem C13_names_distinct : forall o ci r, convert o ci = COk r -> NoDup (map fst (co_npy r)).
+Proof. exact out_names_nodup. Qed.
+Print Assumptions C13_names_distinct.
+
+(* Dtypes: spikes.templates / spikes.clusters are the source vectors ((n,1) squeezed) cast to uint16 ... *)
+Theorem C13_dtypes : forall o ci r, convert o ci = COk r ->
+  exists t1 c1,
+    lookup "spike_templates.npy" (ci_src ci) = Some t1 /\ lookup "spike_clusters.npy" (ci_src ci) = Some c1 /\
+    (forall a, In (relabel (ci_label ci) "spikes.templates.npy", a) (co_npy r) <-> a = to_u16 (copy_npy true t1)) /\
+    (forall a, In (relabel (ci_label ci) "spikes.clusters.npy", a) (co_npy r) <-> a = to_u16 (copy_npy true c1)).
+Proof. exact dtypes_thm. Qed.
+Print Assumptions C13_dtypes.
+
+(* ... and the cast leaves every id below 65536 unchanged *)
+Theorem C13_u16_values : forall a,
+  Forall (fun t => id_ok t = true \/ tok_Z t = None) (a_data a) ->
+  a_dt (to_u16 a) = DU16 /\ a_shape (to_u16 a) = a_shape a /\ a_data (to_u16 a) = a_data a.
+Proof. intros a H. split; [reflexivity|]. split; [reflexivity|]. now apply to_u16_data. Qed.
+Print Assumptions C13_u16_values.
+
+(* Round trip: whenever the loader model accepts the written directory (with any sample rate / channel count /
+   inverse oracle), the loaded spike times, samples and clusters are the source's, the spike templates have the
+   source's values (stored as uint16), the positions are the source's and the channel map is the exported rawInd *)
+Theorem C13_roundtrip : forall fdiv fmul fround inv inv2 o ci r rate ncd kv rate2 ncd2 m2,
+  load fdiv fmul fround inv (ci_src ci) rate ncd = Ok (ci_m ci) ->
+  find_path P_times_ks (ci_src ci) = Some kv ->
+  src_wf (ci_m ci) (ci_src ci) = true ->
+  ids_ok (l_sclusters (ci_m ci)) = true -> ids_ok (l_stemplates (ci_m ci)) = true ->
+  n_spikes (ci_m ci) <> 1 -> n_channels (ci_m ci) <> 1 ->
+  convert o ci = COk r ->
+  load fdiv fmul fround inv2 (co_npy r) rate2 ncd2 = Ok m2 ->
+  l_times m2 = l_times (ci_m ci) /\ l_samples m2 = l_samples (ci_m ci) /\
+  l_sclusters m2 = l_sclusters (ci_m ci) /\
+  (a_dt (l_stemplates m2) = DU16 /\ a_shape (l_stemplates m2) = a_shape (l_stemplates (ci_m ci)) /\
+   a_data (l_stemplates m2) = a_data (l_stemplates (ci_m ci))) /\
+  l_pos m2 = l_pos (ci_m ci) /\
+  l_cmap m2 = rawind_arr (ci_m ci).
+Proof. exact roundtrip_thm. Qed.
+Print Assumptions C13_roundtrip.
+
+(* ... and the exported rawInd IS the source channel map when all channels are on one probe *)
+Theorem C13_rawind_single_probe : forall p probes cmap, probes <> [] -> Forall (fun x => x = p) probes ->
+  List.length probes = List.length cmap -> raw_ind probes cmap = cmap.
+Proof. exact raw_ind_single. Qed.
+Print Assumptions C13_rawind_single_probe.
+
 (* ---- non-vacuity: a small curated KS directory with (n,1) vectors, a temp_wh.dat and raw data ---- *)
 Definition ex_src : files := [
   ("amplitudes.npy", mkarr DF64 [3] [TNum 1 0; TNum 1 1; TNum 3 0]);
@@ -100,7 +187,15 @@ Example C13_ex_converts :
           lookup "channels.rawInd.probe00.npy" (co_npy r) = Some (mkarr DI64 [2] [TNum 1 0; TNum 0 0])
       | CErr _ => False
       end /\
-      convert ex_o (ex_ci m "" true) = CErr CRefused
+      convert ex_o (ex_ci m "" true) = CErr CRefused /\
+      (* read-back with another rate: same spikes *)
+      match convert ex_o (ex_ci m "a.b" false) with
+      | COk r => match load ex_div tmul ex_round (fun a => a) (co_npy r) (TNum 1 3) None with
+                 | Ok m2 => l_times m2 = l_times m /\ l_samples m2 = l_samples m /\ l_sclusters m2 = l_sclusters m /\
+                            a_data (l_stemplates m2) = a_data (l_stemplates m) /\ l_pos m2 = l_pos m /\
+                            a_data (l_cmap m2) = a_data (l_cmap m) /\ l_created m2 = [("whitening_mat_inv.npy", eye 2)]
+                 | Err _ => False end
+      | CErr _ => False end
   | Err _ => False
   end.
 Proof. vm_compute. repeat split. Qed.
